@@ -74,6 +74,20 @@ def conformant_host_name(name: bytes) -> bool:
     labels = s.split(".")
     if not all(_LDH_LABEL.match(l) for l in labels):
         return False
+    for l in labels:
+        if l[2:4] == "--":
+            # reserved LDH labels: only genuine A-labels (RFC 5890) count as conformant; "fake A-labels" and
+            # other R-LDH labels are left to the totality part of the check
+            if l[:4].lower() != "xn--":
+                return False
+            try:
+                u = l[4:].encode("ascii").decode("punycode")
+            except (UnicodeError, ValueError):
+                return False
+            if not u or all(ord(ch) < 128 for ch in u) or not all(ch.isalnum() or ch == "-" for ch in u):
+                return False
+            if u.encode("punycode").decode("ascii").lower() != l[4:].lower() or u != u.lower():
+                return False
     try:
         ipaddress.ip_address(s)
         return False
